@@ -4,6 +4,7 @@ CONSTANTS
   DBs2 = {}
   RPs = {"r1", "r2", "autogen"}
   VirtOrgs = {1}
+  CollideOrgs = {1}
   MaxOps = 4
   MaxMaps = 3
   KeepObs = TRUE
